@@ -80,6 +80,53 @@ impl Prop for Boxes {
     }
 }
 
+pub struct BoxesLarge;
+impl Prop for BoxesLarge {
+    type Case = BoxCase;
+    fn name() -> &'static str {
+        "boxes-large"
+    }
+    fn rule() -> &'static str {
+        "proptest: the boxes oracle on shapes with 4096-4600 points in a part (and on 130-300 small shapes), extremes planted at the \
+         first / last / middle vertex: thresholds on the number of points folded into a box; non-trivial: every case"
+    }
+    fn check(c: &BoxCase, ctx: &mut Ctx) -> Result<(), Fail> {
+        ctx.nontrivial();
+        Boxes::check(c, ctx)
+    }
+}
+impl RandomProp for BoxesLarge {
+    fn strategy(_env: &Env) -> BoxedStrategy<BoxCase> {
+        let plant = (0u8..4, any::<u16>(), any::<u16>(), 0u8..3, plant_value()).prop_map(|(dim, shape, part, pos, value)| Plant { dim, shape, part, pos, value });
+        (gen::ty13(), any::<bool>(), proptest::collection::vec(plant, 2..8), crate::common::finish())
+            .prop_flat_map(|(ty, many, plants, fin)| {
+                let cfg = gen::GenCfg::new(gen::Profile::Moderate, false, 2, 4600);
+                let geoms = if many {
+                    proptest::collection::vec(gen::geom(ty, gen::GenCfg::new(gen::Profile::Moderate, false, 2, 3)), 130..=300).boxed()
+                } else {
+                    proptest::collection::vec(gen::geom_sized(ty, cfg, 1..=2, 4096..=4600), 1..=2).boxed()
+                };
+                geoms.prop_map(move |geoms| BoxCase {
+                    file: FileCase {
+                        ty,
+                        ctor: Ctor::Plain,
+                        fin,
+                        disk: false,
+                        mid_fins: 0,
+                        rejects: 0,
+                        geoms,
+                    },
+                    plants: plants.clone(),
+                    allow_nodata: false,
+                })
+            })
+            .boxed()
+    }
+    fn cases(env: &Env) -> u64 {
+        env.n(13 * 8, 13 * 200)
+    }
+}
+
 impl RandomProp for Boxes {
     fn strategy(env: &Env) -> BoxedStrategy<BoxCase> {
         let (n, parts, pts) = sizes(env);
@@ -193,6 +240,32 @@ fn boxes_k<K: Kind>(c: &BoxCase, ctx: &mut Ctx) -> Result<(), Fail> {
         Err(e) => fail!("malformed", "{}", e),
     };
     ensure!(d.recs.len() == views_.len(), "count", "{} records for {} shapes", d.recs.len(), views_.len());
+    // one case in six: the header the path-based writer leaves on disk
+    if (c.plants.len() + views_.len()) % 6 == 0 && c.file.fin != Finish::WriteShapes {
+        ctx.class("from_path-route");
+        let p = scratch_dir().join("c05.shp");
+        {
+            let mut w = shapefile::ShapeWriter::from_path(&p).map_err(|e| Fail::new("write-error", err_str(&e)))?;
+            for (i, s) in shapes.iter().enumerate() {
+                w.write_shape(s).map_err(|e| Fail::new("write-error", err_str(&e)))?;
+                if c.file.mid_fins & (1 << (i % 32)) != 0 {
+                    w.finalize().map_err(|e| Fail::new("write-error", err_str(&e)))?;
+                }
+            }
+        }
+        let disk = std::fs::read(&p).map_err(|e| Fail::new("disk-io", e.to_string()))?;
+        let dd = refcodec::decode(&disk, Mode::Strict).map_err(|e| Fail::new("malformed", format!("from_path: {}", e)))?;
+        for k in 0..8 {
+            ensure!(
+                dd.header_bbox[k].v() == d.header_bbox[k].v() || (dd.header_bbox[k].is_nan() && d.header_bbox[k].is_nan()),
+                "header-xy",
+                "from_path header box[{}] = {:?}, in-memory writer gives {:?}",
+                k,
+                dd.header_bbox[k],
+                d.header_bbox[k]
+            );
+        }
+    }
     if multi {
         for (i, (r, v)) in d.recs.iter().zip(&views_).enumerate() {
             let rb = ref_bbox(ty, &v.parts).unwrap();
